@@ -163,6 +163,7 @@ func checkC14(c *Ctx) {
 	c.Rule("C14.R3", "Mark forgets only what left the window: every store of zero into the ring goes to the slot of a block cur+1 .. new (cur, new the block numbers of the old top and of the argument), and the whole ring is zeroed only when new - cur >= N; block cur and below may hold counters still inside the window (E2 linear obligations at each zero store)")
 	ringRule(c, "C14.R1", "C14.R2")
 	ringClearRule(c, "C14.R3")
+	c14R5(c)
 	c.Rule("C14.R4", "the filter's history is the accepted counters: in readPacketLocked, Mark is called only after Check(count) was true and AEAD Open returned nil, for the counter that was checked, in that order, and every success path marks (a counter recorded for a datagram that was not accepted makes the filter reject the genuine packet carrying it; see C03.R1) (E1 decision table)")
 	acceptOrderRule(c, "C14.R4", []string{"replay-check", "mark", "mark-after-open", "same-counter", "order"})
 }
@@ -415,4 +416,49 @@ func ringClearRule(c *Ctx, rule string) {
 	}
 	rangeRuleAssuming(c, rule, []*ssa.Function{mrk}, gen, assume, "Mark forgets counters that may still be inside the window (a genuine packet replayed from that band is accepted a second time)", "zero stores into the ring in Mark", 1)
 	_ = nStores
+}
+
+// c14R5: a counter above the top is always acceptable. "Never rejects a fresh packet for arbitrary forward
+// jumps": on every path of Check on which the argument was found larger than the stored top, the answer
+// is the constant true. A plausibility limit on the jump rejects the first packet after a long gap, the
+// top never moves, and every later packet is rejected as well.
+func c14R5(c *Ctx) {
+	P := c.P
+	const rule = "C14.R5"
+	c.Rule(rule, "a counter above the top is always acceptable: on every path of Check where the argument was found larger than the stored top the result is the constant true (a limit on the forward jump rejects the first packet after a long gap, the top never moves, and the session stays wedged) (E1 decision table)")
+	fn := P.Func("transport", "(SlidingWindow).Check")
+	fTop := P.Field("transport", "SlidingWindow", "wt")
+	if fn == nil || fTop == nil || len(fn.Params) != 2 {
+		c.Undecided(rule, "transport.(SlidingWindow).Check", "function or field not found")
+		return
+	}
+	name := FuncName(fn)
+	c.Analysed(name)
+	fs := newFailSet()
+	n := 0
+	ok := walkAll(c, rule, fn, func(p *Path) {
+		r := p.Returns()
+		if r == nil || len(r.Results) != 1 {
+			return
+		}
+		last := len(p.Blocks) - 1
+		above := false
+		for k, v := range p.FactsAt(last) {
+			// wt < seq true, or seq <= wt ... normalised: LSS(wt, seq) == true
+			if k.op == token.LSS && v && lastField(p.Resolve(k.x, last)) == fTop && paramIndex(fn, p.Resolve(k.y, last)) == 1 {
+				above = true
+			}
+		}
+		if !above {
+			return
+		}
+		n++
+		if v, isC := pathBool(p, r.Results[0], last); !(isC && v) {
+			fs.add("above-top", "Check can reject (or makes depend on something else) a counter that was found larger than the highest one accepted so far", p.Exit(), p)
+		}
+	})
+	if ok {
+		fs.report(c, rule, name, []string{"above-top"}, P.Pos(fn.Pos()), fmt.Sprintf("true on all %d paths above the top", n))
+		c.Floor(rule, "paths of Check above the top", n, 1)
+	}
 }
